@@ -34,6 +34,9 @@ def run(ctx):
     if thorough:
         suite += [("W6", 5, None, 60000), ("W6d", 6, None, 60000)]
     hotcommon.run_suite(ctx, suite, hotcommon.classify_other("C10"))
+    # an inserted (static) value must also survive a load of the same key that races with the insertion
+    from checks import racecommon
+    racecommon.traces(ctx, thorough)
     rep = vlib.run_bin("amv", ["c10-get", ctx.seed])
     rep = worlds.parse_report(rep)
     for m in rep["mismatches"]:
